@@ -20,11 +20,11 @@ EXPLANATION = (
 
 def run(ctx):
     repo = ctx.repo
-    r05a(ctx, repo)
-    r05b(ctx, repo)
-    r05c(ctx, repo)
-    r05d(ctx, repo)
-    r05e(ctx, repo)
+    ctx.each(r05a, ctx, repo)
+    ctx.each(r05b, ctx, repo)
+    ctx.each(r05c, ctx, repo)
+    ctx.each(r05d, ctx, repo)
+    ctx.each(r05e, ctx, repo)
 
 
 SITES = (("model", "TimedCompartment.preallocate"), ("model", "TimedLink.preallocate"))
